@@ -173,10 +173,17 @@ func (m *MonAgreement) AfterStep(nw *Network) {
 				m.compared++
 				nw.Res.count("agreement_block_comparisons", 1)
 				if c.digest != dg {
-					nw.violate(m.Prop, m.Prop+":block-disagreement",
+					sig := m.Prop + ":block-disagreement"
+					if late := lateSetChangeBefore(nw.Nodes[c.from], d.Body.RoundReceived) + lateSetChangeBefore(n, d.Body.RoundReceived); late > 0 {
+						// a validator-set change reached one of the two nodes only after it
+						// had already assigned events to the round at which it takes effect
+						sig = m.Prop + ":block-disagreement-after-late-validator-set-change"
+					}
+					nw.violate(m.Prop, sig,
 						fmt.Sprintf("node %d delivered block %d differing from what node %d delivered for the same index", n.Idx, d.Index, c.from),
 						map[string]interface{}{"node_a": c.from, "block_a": describeDelivered(c.d), "node_b": n.Idx, "block_b": describeDelivered(d), "node_b_resets": n.ResetEpochs,
-							"node_b_insert_failed_step": n.InsertFailedStep, "node_b_joined_step": n.JoinedAtStep, "trace_first_difference": traceDiff(nw, n, c.d, d)})
+							"node_b_insert_failed_step": n.InsertFailedStep, "node_b_joined_step": n.JoinedAtStep, "trace_first_difference": traceDiff(nw, n, c.d, d),
+							"frame_diff": frameDiffNodes(nw.Nodes[c.from], n, d.Body.RoundReceived)})
 					return
 				}
 			} else {
@@ -429,4 +436,70 @@ func traceDiff(nw *Network, n *SimNode, a, b *Delivered) interface{} {
 		}
 	}
 	return nil
+}
+
+func frameDiffNodes(a, b *SimNode, rr int) interface{} {
+	out := map[string]interface{}{}
+	if a.Node == nil || b.Node == nil || a.StoreClosed || b.StoreClosed {
+		return out
+	}
+	fa, ea := a.Core.Hg().Store.GetFrame(rr)
+	fb, eb := b.Core.Hg().Store.GetFrame(rr)
+	if ea == nil && eb == nil {
+		out["frame_diff"] = frameDiff(fa, fb)
+	}
+	for name, n := range map[string]*SimNode{"a": a, "b": b} {
+		if ri, err := n.Core.Hg().Store.GetRound(rr); err == nil {
+			ws := []string{}
+			for _, w := range ri.Witnesses() {
+				_, f := ri.VerifFame(w)
+				ev, _ := n.Core.Hg().Store.GetEvent(w)
+				c, idx, ts := -1, -1, int64(0)
+				if ev != nil {
+					if sn := n.nw.nodeByPub(ev.Creator()); sn != nil {
+						c = sn.Idx
+					}
+					idx, ts = ev.Index(), ev.Timestamp()
+				}
+				ws = append(ws, fmt.Sprintf("%s creator=%d index=%d ts=%d fame=%s topo=%d", w[:10], c, idx, ts, f, func() int {
+					if ev != nil {
+						return ev.VerifTopologicalIndex()
+					}
+					return -1
+				}()))
+			}
+			sort.Strings(ws)
+			out["witnesses_"+name] = ws
+			ps, _ := n.Core.Hg().Store.GetPeerSet(rr)
+			if ps != nil {
+				out["peerset_"+name] = fmt.Sprintf("%d validators, supermajority %d", ps.Len(), ps.SuperMajority())
+			}
+		}
+	}
+	return out
+}
+
+// lateSetChangeBefore counts the accepted membership changes that node n
+// committed when it had already created events in (or beyond) the round at
+// which they take effect, with an effective round <= rr.
+func lateSetChangeBefore(n *SimNode, rr int) int {
+	if n == nil || n.App == nil {
+		return 0
+	}
+	c := 0
+	for _, d := range n.App.Delivered {
+		if d.LastRoundAtCommit < 0 || d.Body.RoundReceived+6 > rr {
+			continue
+		}
+		acc := false
+		for _, rc := range d.Resp.InternalTransactionReceipts {
+			if rc.Accepted {
+				acc = true
+			}
+		}
+		if acc && d.LastRoundAtCommit >= d.Body.RoundReceived+6 {
+			c++
+		}
+	}
+	return c
 }
